@@ -570,4 +570,39 @@ Example T02k_delete_unused_example :
   /\ run_module 20 M = ([TEv 5; TUse (SInst 1); TEv 2], OOk).
 Proof. repeat split; reflexivity. Qed.
 
+
+(* T02k.9  object_oriented.move_staticmethod_static_scope (after repairs cb0c976 .. 87eaee7), resolution level:
+   a static method x of class k that the rule moves under the new name n IS, in the output, the module-level
+   function n: same parameters, the (redirected) body of x, bound by nothing else (no other function, no stored
+   name) -- so a redirected access `C.m(args)` -> `n(args)` reaches the body that `C.m` reached (T02k.10), with
+   the same arity test and no first argument.  The whole-run equality of ms_model is NOT proved (correspondence
+   + CPython-validated semantics + oracle only). *)
+Theorem T02k_move_static_redirect :
+  forall M k x n,
+  uniq_cls M = true -> uniq_meths M = true -> nodup_names (map snd (ms_plan M)) = true ->
+  In k (classes M) -> c_base k = None -> In x (c_meths k) -> ms_new_name M k x = Some n ->
+  m_kind x = KStatic /\
+  resolve (ms_pass M) SNone None RMod n = TFn (moved_fn (ms_plan M) k x n) /\
+  f_params (moved_fn (ms_plan M) k x n) = m_params x /\
+  f_body (moved_fn (ms_plan M) k x n) = map (ms_act (ms_plan M) (Some (c_name k))) (m_body x).
+Proof. exact move_static_redirect. Qed.
+Print Assumptions T02k_move_static_redirect.
+
+Theorem T02k_move_static_original :
+  forall M k x n nargs,
+  uniq_cls M = true -> uniq_meths M = true -> wf_mod M = true ->
+  In k (classes M) -> c_base k = None -> In x (c_meths k) -> ms_new_name M k x = Some n ->
+  resolve M SNone None (RCls (c_name k)) (m_name x) = TMeth (ViaCls (c_name k)) (c_name k) x /\
+  bind (ViaCls (c_name k)) x nargs = (SNone, Nat.eqb (m_params x) nargs).
+Proof. exact move_static_original. Qed.
+Print Assumptions T02k_move_static_original.
+
+Example T02k_move_static_example :
+  let M := mkMod [IClass (mkCls 1 None [mkMeth 1 KStatic 0 [AEv 1]; mkMeth 2 KPlain 1 [ACall RSelf 1 0]] [])] [] []
+                 [ACall (RCls 1) 1 0; ACall (RNew 1) 2 0] in
+  ms_new_name M (mkCls 1 None [mkMeth 1 KStatic 0 [AEv 1]; mkMeth 2 KPlain 1 [ACall RSelf 1 0]] []) (mkMeth 1 KStatic 0 [AEv 1])
+    = Some (moved_name 1)
+  /\ run_module 20 (ms_model M) = run_module 20 M /\ run_module 20 M = ([TEv 1; TEv 1], OOk).
+Proof. repeat split; reflexivity. Qed.
+
 End Cls.
